@@ -321,7 +321,8 @@ def dispatch (op : String) (j : Json) : Except String Json := do
       return obj [("ppem", jr pp), ("width_px", jr wp), ("metrics", jm)]
   | "runs" =>
       let g ← getNats (← field j "gids")
-      return obj [("r", Json.arr ((runs g).map fun r => Json.arr (r.map fun n => Json.str (toString n)).toArray).toArray)]
+      return obj [("r", Json.arr ((runs g).map fun r => Json.arr (r.map fun n => Json.str (toString n)).toArray).toArray),
+                  ("copy", Json.arr ((copyRuns g.length g).map fun r => Json.arr (r.map fun n => Json.str (toString n)).toArray).toArray)]
   | "offsets" =>
       let l ← getNats (← field j "lens")
       let o ← getNat (← field j "off")
